@@ -404,6 +404,12 @@ pub enum Context {
     Operand,
     /// the last expression's value is ignored (a further expression follows)
     Ignored,
+    /// `n` distinct constants (ints beyond i16, floats, strings, identifiers) are placed in the
+    /// chunk's constant pool before the program (a literal data table assigned to a local), so
+    /// that the program's own literals and non-local identifiers (`emit`, `print`, `size`) get
+    /// constant indices around / beyond `n` — the varint boundaries 2^7, 2^14, 2^21 of the
+    /// instruction encoding; top level or in a function body
+    ConstPool(usize, bool),
 }
 
 impl Context {
@@ -417,6 +423,7 @@ impl Context {
             Context::Argument => "argument".into(),
             Context::Operand => "operand".into(),
             Context::Ignored => "ignored".into(),
+            Context::ConstPool(n, f) => format!("const-pool{}{}", n, if *f { "-in-function" } else { "" }),
         }
     }
     pub fn family(&self) -> &'static str {
@@ -429,6 +436,7 @@ impl Context {
             Context::Argument => "argument",
             Context::Operand => "operand",
             Context::Ignored => "ignored",
+            Context::ConstPool(..) => "const-pool",
         }
     }
     /// does the script's result equal the program's value in this context?
@@ -513,8 +521,53 @@ pub fn render(p: &Expr, ctx: &Context, style_seed: u64) -> Option<String> {
             lines.push("null".into());
             lines
         }
+        Context::ConstPool(n, f) => {
+            lines.extend(const_pool_prelude(*n));
+            let mut body = vec![];
+            all(&st, &mut body);
+            lines.extend(if *f { in_function(body) } else { body });
+            lines
+        }
     };
     Some(lines.join("\n") + "\n")
+}
+
+/// source lines that put `n` distinct constants into the constant pool, in this order: the
+/// identifier `zc`, then per element `i` an int `7000000 + i` (beyond i16, so a pool entry), a float
+/// `7000000 + i + 0.25`, a string `'zc<i>'` or — every fourth — an identifier `zk<i>` (a map key);
+/// nothing in the generator's literal pools collides with them
+pub fn const_pool_prelude(n: usize) -> Vec<String> {
+    if n == 0 {
+        return vec![];
+    }
+    let mut list = String::from("zc = [");
+    let mut map = String::from("zm = {");
+    let (mut nl, mut nm) = (0, 0);
+    for i in 0..n.saturating_sub(1) {
+        match i % 4 {
+            3 => {
+                if nm > 0 {
+                    map.push_str(", ");
+                }
+                map.push_str(&format!("zk{}: 0", i));
+                nm += 1;
+            }
+            k => {
+                if nl > 0 {
+                    list.push_str(", ");
+                }
+                match k {
+                    0 => list.push_str(&format!("{}", 7_000_000 + i)),
+                    1 => list.push_str(&format!("{}.25", 7_000_000 + i)),
+                    _ => list.push_str(&format!("'zc{}'", i)),
+                }
+                nl += 1;
+            }
+        }
+    }
+    list.push(']');
+    map.push('}');
+    vec![list, map]
 }
 
 /// variable number reserved for the `Assigned` context (`v9999`)
